@@ -35,9 +35,10 @@ SKEL = {
 ARR_SPECS = [("arr", "a b"), ("arr", "*v a"), ("arr", "#a"), ("arr", "a"), ("arr", "a a+1"),
              ("union", [("arr", "a 3"), ("arr", "a b")]), ("union", [("arr", "a"), ("py", "int")]),
              ("tup", [("arr", "a"), ("arr", "a b")]), ("arr", "*#v"), ("union", [("arr", "c+1"), ("arr", "a")])]
-PY_SPECS = [("py", "int"), ("py", "str"), ("tup", [("py", "int"), ("py", "int")]),
+PY_SPECS = [("py", "int"), ("py", "str"), ("py", "float"), ("union", [("py", "float"), ("py", "str")]),
+            ("tup", [("py", "int"), ("py", "int")]),
             ("union", [("py", "int"), ("py", "str")]), ("any",)]
-PYVALS = {"int": 1, "str": "s", "pair": (1, 2), "badpair": (1, "s")}
+PYVALS = {"int": 1, "str": "s", "pair": (1, 2), "badpair": (1, "s"), "float": 2.5}
 PRIORS = [[], ["a"], ["a b"], ["*v"], ["*#v"]]
 
 
